@@ -473,6 +473,7 @@ class Ctx:
             except _Continue:
                 pass
             self._check_invs(lc, fr, "inv-step")
+            self.check_frame(self.entry_env, self.entry_old)   # the iteration's writes are judged here
             if lc.variant:
                 sub = self._spec_frame(fr)
                 var1 = I.eval(ast.parse(lc.variant, mode="eval").body, sub)
@@ -524,6 +525,7 @@ class Ctx:
                 pass
             fr.locals[idx] = i + 1
             self._check_invs(lc, fr, "inv-step")
+            self.check_frame(self.entry_env, self.entry_old)   # the iteration's writes are judged here
             raise PathEnd()
         fr.locals[idx] = n if not is_sym(n) else i
         I.exec_block(st.orelse, fr)
@@ -1137,12 +1139,21 @@ class Ctx:
             self.worklist = outer_work
             self.cache_tag = saved_tag
 
-    def eval_clause(self, text, env, old=None):
+    def _sidecar_of(self, c):
+        if c.sidecar == self.contract.sidecar:
+            return self.sidecar
+        name = f"sidecar.{getattr(c, 'sidecar_mod', os.path.basename(c.sidecar)[:-3])}"
+        m = self.world.extra.get(name)
+        if m is None:
+            m = self.world.add_sidecar(name, c.sidecar)
+        return m
+
+    def eval_clause(self, text, env, old=None, module=None):
         try:
             tree = ast.parse(text.strip(), mode="eval")
         except SyntaxError as ex:
             raise SourceError(f"bad contract clause {text!r}: {ex}") from ex
-        fr = Frame(self.sidecar, None, True, dict(env))
+        fr = Frame(module or self.sidecar, None, True, dict(env))
         if old is not None:
             fr.locals["__old__"] = old
         try:
@@ -1383,8 +1394,9 @@ class Ctx:
             self.result.assumptions.add(f"assumed contract {c.name} on {info.key}: {c.notes or '; '.join(c.ensures)}")
         loc = I.bind_args(info, args, kwargs, fr)
         site = f"{self.contract.name}/pre@{c.name}#L{getattr(node, 'lineno', 0)}"
+        cmod = self._sidecar_of(c)
         for i, text in enumerate(c.requires):
-            g = self.eval_clause(text, loc)
+            g = self.eval_clause(text, loc, None, cmod)
             self.check(g, f"{site}.{i}", "pre", text, getattr(node, "lineno", None))
         memo = {}
         old = {k: _deep_copy_value(v, memo) for k, v in loc.items()}
@@ -1417,7 +1429,7 @@ class Ctx:
         for text in c.ensures + c.assume_post:
             if text in skip:
                 continue
-            g = self.eval_clause(text, env, old)
+            g = self.eval_clause(text, env, old, cmod)
             self.assume(g)
         self.result.functions.setdefault(
             info.key,
@@ -1654,6 +1666,8 @@ class Ctx:
         memo = {}
         old = {k: _deep_copy_value(v, memo) for k, v in env.items()}
         self.entry_ids = _reach_ids(list(env.values()))
+        self.entry_env = env
+        self.entry_old = old
         self.writes = []
         self.log = []
         outcome = None
